@@ -99,6 +99,7 @@ func (e *env) canonical(mode string) {
 	e.mintTo(mode, u1, 500)
 	e.mintTo(mode, u2, 800)
 	e.mintTo(mode, e.holder, 300)
+	e.mintTo(mode, e.bal, 200) // the contract's own address holds funds from the start
 	e.xfer(mode, u0, u1, 100, []world.SignerSpec{world.G(e.users[0])})                                         // owner
 	e.xfer(mode, u0, u1, 100, []world.SignerSpec{world.G(e.stranger)})                                         // refused: foreign signer
 	e.xfer(mode, u0, u1, 100, []world.SignerSpec{world.Scoped(e.users[0], transaction.CustomContracts, e.nm)}) // refused: wrong scope
